@@ -1043,8 +1043,56 @@ pub fn observe_ext(w: &mut World, r: usize) -> Result<(), Violation> {
     if w.mon.c14 {
         check_stickies(w, r)?;
     }
+    if w.mon.c16 {
+        check_delete_set(w, r)?;
+    }
     if w.mon.c05 {
         check_lww(w, r)?;
+    }
+    Ok(())
+}
+
+/// C16 (document part): the delete set computed from a document contains exactly the ids of its
+/// deleted content.
+fn check_delete_set(w: &mut World, r: usize) -> Result<(), Violation> {
+    let rep = &w.reps[r];
+    let txn = rep.doc.transact();
+    let ds = txn.snapshot().delete_set;
+    let blocks = yrs::verif::store_blocks(&txn);
+    drop(txn);
+    let ds_units: HashSet<Uid> = idset_units(&ds).into_iter().collect();
+    let mut deleted: HashSet<Uid> = HashSet::new();
+    for b in blocks.iter().filter(|b| b.kind != 2 && b.deleted) {
+        for k in b.id.clock..b.id.clock + b.len {
+            deleted.insert((b.id.client.get(), k));
+        }
+    }
+    w.cnt.inc("c16_delete_sets_checked");
+    if ds_units != deleted {
+        let extra: Vec<&Uid> = ds_units.difference(&deleted).take(3).collect();
+        let missing: Vec<&Uid> = deleted.difference(&ds_units).take(3).collect();
+        return v(w, "C16", "delete-set-vs-store", format!("snapshot().delete_set of r{} differs from the deleted blocks of its store: in the set only {:?}, in the store only {:?}", rep.cfg.id, extra, missing));
+    }
+    // canonical form of the computed set
+    for (_, ranges) in ds.iter() {
+        let rs: Vec<_> = ranges.iter().cloned().collect();
+        if rs.is_empty() || rs.windows(2).any(|x| x[0].end >= x[1].start) || rs.iter().any(|x| x.start >= x.end) {
+            return v(w, "C16", "delete-set-not-canonical", format!("delete set of r{} is not canonical: {:?}", rep.cfg.id, ds));
+        }
+    }
+    // visible elements are not in it; received deletions of integrated units are
+    let lo = rep.model.lower();
+    for (c, labels, uids) in w.sequences(r) {
+        if let Some(uids) = uids {
+            for (l, u) in labels.iter().zip(uids.iter()) {
+                if ds_units.contains(u) {
+                    return v(w, "C16", "visible-in-delete-set", format!("element {} ({:?}) of {} is visible on r{} but its id is in the delete set", l, u, c, rep.cfg.id));
+                }
+            }
+        }
+    }
+    if let Some(u) = rep.model.del.iter().find(|u| lo.contains(u) && !ds_units.contains(u)) {
+        return v(w, "C16", "deletion-missing-from-delete-set", format!("r{} received the deletion of the integrated unit {:?} but its delete set does not contain it", rep.cfg.id, u));
     }
     Ok(())
 }
@@ -1191,6 +1239,7 @@ pub fn nontrivial_ext(prop: &str, w: &World) -> bool {
         "C11" => w.cnt.get("c11_events_applied") >= 3 && w.cnt.get("msgs_rebroadcast") > 0,
         "C13" => w.cnt.get("c13_restores") > 0,
         "C14" => w.cnt.get("c14_resolutions_checked") > 0,
+        "C16" => w.cnt.get("c16_delete_sets_checked") > 3 && w.cnt.get("op_seq_remove") + w.cnt.get("op_text_remove") + w.cnt.get("op_map_remove") + w.cnt.get("op_map_set") > 0,
         "C15" => w.cnt.get("c15_twin_comparisons") > 3 && w.cnt.get("op_seq_remove") + w.cnt.get("op_text_remove") + w.cnt.get("op_map_remove") + w.cnt.get("op_map_set") > 0,
         _ => false,
     }
